@@ -18,7 +18,13 @@ static t_bidib_dcc_aspect_port_value vp_n_pv[1]; static vp_garray_s vp_n_ports;
 #ifndef VP_T_bidib_config_parse_aspect
 bool bidib_config_parse_aspect(yaml_parser_t *parser, GArray *aspect_list) {
 	__CPROVER_assert(aspect_list != NULL, "C13.nested.aspect_list_exists_when_aspects_are_parsed");
-	vp_nested_calls++; vp_n_init(); t_bidib_aspect a; a.id = &vp_n_id; vp_garray_append1(aspect_list, &a, sizeof a); _Bool e; return e;
+	vp_nested_calls++; vp_n_init(); t_bidib_aspect a;
+#ifdef VP_LEAKCHECK
+	a.id = g_string_new("n");      /* heap: the release epilogue of the leak-checking units frees list elements */
+#else
+	a.id = &vp_n_id;
+#endif
+	vp_garray_append1(aspect_list, &a, sizeof a); _Bool e; return e;
 }
 #endif
 #ifndef VP_T_bidib_config_parse_dcc_aspect_port
@@ -30,7 +36,12 @@ bool bidib_config_parse_dcc_aspect_port(yaml_parser_t *parser, GArray *port_valu
 #ifndef VP_T_bidib_config_parse_dcc_aspect
 bool bidib_config_parse_dcc_aspect(yaml_parser_t *parser, GArray *aspect_list) {
 	__CPROVER_assert(aspect_list != NULL, "C13.nested.aspect_list_exists_when_aspects_are_parsed");
-	vp_nested_calls++; vp_n_init(); vp_n_ports.data = (gchar *)vp_n_pv; vp_n_ports.len = 1; vp_n_ports.elt_size = sizeof vp_n_pv[0]; vp_n_ports.cap = 1; t_bidib_dcc_aspect a; a.id = &vp_n_id; a.port_values = (GArray *)&vp_n_ports;
+	vp_nested_calls++; vp_n_init(); vp_n_ports.data = (gchar *)vp_n_pv; vp_n_ports.len = 1; vp_n_ports.elt_size = sizeof vp_n_pv[0]; vp_n_ports.cap = 1; t_bidib_dcc_aspect a;
+#ifdef VP_LEAKCHECK
+	a.id = g_string_new("n"); a.port_values = g_array_sized_new(FALSE, FALSE, sizeof(t_bidib_dcc_aspect_port_value), 2);
+#else
+	a.id = &vp_n_id; a.port_values = (GArray *)&vp_n_ports;
+#endif
 	vp_garray_append1(aspect_list, &a, sizeof a); _Bool e; return e;
 }
 #endif
